@@ -8,9 +8,19 @@ import difflib, os, sys, importlib.util
 V = os.path.dirname(os.path.dirname(os.path.abspath(__file__)))
 REPO = "/repo"
 
-spec = importlib.util.spec_from_file_location("defs", os.path.join(V, "mutants", "defs.py"))
-defs = importlib.util.module_from_spec(spec)
-spec.loader.exec_module(defs)
+import glob
+
+
+class _D:
+    MUTANTS = []
+
+
+defs = _D()
+for _f in sorted(glob.glob(os.path.join(V, "mutants", "defs*.py"))):
+    spec = importlib.util.spec_from_file_location("defs_" + os.path.basename(_f)[:-3], _f)
+    mod = importlib.util.module_from_spec(spec)
+    spec.loader.exec_module(mod)
+    defs.MUTANTS += mod.MUTANTS
 
 only = set(sys.argv[1:])
 bad = 0
